@@ -6,6 +6,7 @@ from ..cfg import cfg_of
 from ..model import norm, parent, walk_own, walk_with_nested_exprs
 from ..paths import summarize
 from ..sqlmodel import local_defs, single_def
+from ..trace import map_desc
 
 Q2 = "aw_query/query2.py"
 QF = "aw_query/functions.py"
@@ -147,78 +148,6 @@ def quote_guards(prog, rep):
         rep.floor(f"{cname}.check quote toggles", n_tog, 2)
 
 
-def _map_desc(fi, e):
-    """Describe a list / dict that is built as  prefix + [E(x) for x in IT]  (comprehension, append loop, += / extend)
-    -> (prefix element texts, iterable text, element text with the loop variable written `_`, 'key' for dicts) or None"""
-
-    class _R(ast.NodeTransformer):
-        def __init__(self, var):
-            self.var = var
-
-        def visit_Name(self, n):
-            return ast.copy_location(ast.Name(id="_", ctx=n.ctx), n) if n.id == self.var else n
-
-    def elt_text(elt, var):
-        return norm(_R(var).visit(ast.parse(ast.unparse(elt), mode="eval").body))
-
-    def comp(c, prefix):
-        if isinstance(c, (ast.ListComp, ast.GeneratorExp)) and len(c.generators) == 1 and not c.generators[0].ifs and isinstance(c.generators[0].target, ast.Name):
-            g = c.generators[0]
-            return (prefix, norm(g.iter), elt_text(c.elt, g.target.id), None)
-        if isinstance(c, ast.DictComp) and len(c.generators) == 1 and not c.generators[0].ifs and isinstance(c.generators[0].target, ast.Tuple) and len(c.generators[0].target.elts) == 2:
-            g = c.generators[0]
-            k, v = [norm(x) for x in g.target.elts]
-            if norm(c.key) == k:
-                return (prefix, norm(g.iter), elt_text(c.value, v), "key")
-        return None
-
-    if isinstance(e, (ast.ListComp, ast.DictComp)):
-        return comp(e, [])
-    if isinstance(e, ast.BinOp) and isinstance(e.op, ast.Add) and isinstance(e.left, ast.List):
-        return comp(e.right, [norm(x) for x in e.left.elts])
-    if isinstance(e, ast.List) and e.elts and isinstance(e.elts[-1], ast.Starred):
-        return comp(e.elts[-1].value, [norm(x) for x in e.elts[:-1]])
-    if not isinstance(e, ast.Name):
-        return None
-    acc = e.id
-    inits = [n for n in walk_own(fi.node) if isinstance(n, (ast.Assign, ast.AnnAssign)) and norm(n.targets[0] if isinstance(n, ast.Assign) else n.target) == acc]
-    if len(inits) != 1 or inits[0].value is None:
-        return None
-    init = inits[0].value
-    if isinstance(init, (ast.ListComp, ast.DictComp, ast.BinOp)) or (isinstance(init, ast.List) and init.elts and isinstance(init.elts[-1], ast.Starred)):
-        others = [n for n in walk_with_nested_exprs(fi.node) if isinstance(n, ast.Call) and isinstance(n.func, ast.Attribute) and norm(n.func.value) == acc]
-        return None if others else _map_desc(fi, init)
-    if isinstance(init, ast.List):
-        prefix = [norm(x) for x in init.elts]
-    elif (isinstance(init, ast.Dict) and not init.keys) or norm(init) in ("dict()", "list()"):
-        prefix = []
-    else:
-        return None
-    muts = []
-    for n in walk_own(fi.node):
-        if isinstance(n, ast.For) and isinstance(n.target, (ast.Name, ast.Tuple)):
-            body = [x for x in n.body if not (isinstance(x, ast.Expr) and isinstance(x.value, ast.Constant))]
-            if len(body) == 1 and any(isinstance(y, ast.Name) and y.id == acc for y in ast.walk(body[0])):
-                b0 = body[0]
-                if isinstance(n.target, ast.Name) and isinstance(b0, ast.Expr) and isinstance(b0.value, ast.Call) and norm(b0.value.func) == f"{acc}.append" and len(b0.value.args) == 1 and not n.orelse:
-                    muts.append((prefix, norm(n.iter), elt_text(b0.value.args[0], n.target.id), None))
-                elif isinstance(n.target, ast.Tuple) and len(n.target.elts) == 2 and isinstance(b0, ast.Assign) and isinstance(b0.targets[0], ast.Subscript) and norm(b0.targets[0].value) == acc and norm(b0.targets[0].slice) == norm(n.target.elts[0]) and not n.orelse:
-                    muts.append((prefix, norm(n.iter), elt_text(b0.value, norm(n.target.elts[1])), "key"))
-                else:
-                    muts.append(None)
-            elif any(isinstance(y, ast.Name) and y.id == acc and isinstance(getattr(y, "ctx", None), ast.Load) for x in n.body for y in ast.walk(x)) and any(isinstance(y, ast.Call) and isinstance(y.func, ast.Attribute) and norm(y.func.value) == acc for x in n.body for y in ast.walk(x)):
-                muts.append(None)
-        elif isinstance(n, ast.AugAssign) and norm(n.target) == acc and isinstance(n.op, ast.Add):
-            muts.append(comp(n.value, prefix))
-        elif isinstance(n, ast.Expr) and isinstance(n.value, ast.Call) and norm(n.value.func) == f"{acc}.extend" and len(n.value.args) == 1:
-            muts.append(comp(n.value.args[0], prefix))
-        elif isinstance(n, ast.Expr) and isinstance(n.value, ast.Call) and isinstance(n.value.func, ast.Attribute) and norm(n.value.func.value) == acc and n.value.func.attr in ("insert", "pop", "remove", "clear", "reverse", "sort", "update", "setdefault"):
-            muts.append(None)
-    if len(muts) != 1 or muts[0] is None:
-        return None
-    return muts[0]
-
-
 def loops_rule(prog, rep):
     rep.rule("LOOPS", "QFunction.parse / QList.parse / QDict.parse: every non-raising path through an iteration of the argument / entry loop appends or sets exactly one parsed value; QFunction.interpret evaluates self.args in order after the two injected arguments and calls functions[self.name](*call_args); QList / QDict.interpret map every child")
     for cname, sink in (("QFunction", "args.append"), ("QList", "ls.append"), ("QDict", "d[key]")):
@@ -279,17 +208,17 @@ def loops_rule(prog, rep):
     ok = False
     md = None
     if len(calls) == 1 and len(calls[0].args) == 1 and isinstance(calls[0].args[0], ast.Starred) and not calls[0].keywords:
-        md = _map_desc(fi, calls[0].args[0].value)
+        md = map_desc(fi, calls[0].args[0].value)
         ok = md == (["datastore", "namespace"], "self.args", "_.interpret(datastore, namespace)", None)
     rep.check(ok, "LOOPS", fi.short, "argument evaluation", "all of self.args, in order, after (datastore, namespace)", f"a call does not apply the built-in to the values of all of its arguments in written order (argument list: {md})", fi.loc())
     fi = prog.func("QList.interpret")
     rets = [r for r in walk_own(fi.node) if isinstance(r, ast.Return)]
-    md = _map_desc(fi, rets[0].value) if len(rets) == 1 and rets[0].value is not None else None
+    md = map_desc(fi, rets[0].value) if len(rets) == 1 and rets[0].value is not None else None
     ok = md == ([], "self.value", "_.interpret(datastore, namespace)", None)
     rep.check(ok, "LOOPS", fi.short, "element evaluation", "every element, in order", f"a list literal does not evaluate to the list of its elements' values ({md})", fi.loc())
     fi = prog.func("QDict.interpret")
     rets = [r for r in walk_own(fi.node) if isinstance(r, ast.Return)]
-    md = _map_desc(fi, rets[0].value) if len(rets) == 1 and rets[0].value is not None else None
+    md = map_desc(fi, rets[0].value) if len(rets) == 1 and rets[0].value is not None else None
     ok = md == ([], "self.value.items()", "_.interpret(datastore, namespace)", "key")
     rep.check(ok, "LOOPS", fi.short, "entry evaluation", "every entry", f"a dict literal does not evaluate to the dict of its values ({md})", fi.loc())
     for cname, expr in (("QInteger", "int(string)"), ("QString", None)):
